@@ -32,7 +32,7 @@ func TestC19Store(t *testing.T) {
 		closed := false
 		defer func() {
 			if !closed {
-				db.Close()
+				sim.CloseDB(db)
 			}
 			os.RemoveAll(dir)
 		}()
